@@ -1,8 +1,221 @@
-/- line-protocol engine `gen` (stub: answers bad-op until the engine is built) -/
+/- line-protocol engine `gen`: generator pipelines (C16, C10)
+
+request:  `gen <consumer> <L> <fuel> <tok> <tok> …`   (postfix: sources push, adaptors pop)
+  consumer: toarray | len | last | get:<i> | steps:<n> (elements of the first n small steps, no budget)
+  L: search limit or `-`
+answer:   `ok <value>` | `err` | `viol` | `fuel` | `bad-op`
+-/
+import XrayModel.Gen
+open XrayModel.Gen
+namespace XrayDriver.GenEng
+
+mutual
+def vbeq : V → V → Bool
+  | .int a, .int b => a == b
+  | .tup a, .tup b => vsbeq a b
+  | .seq a, .seq b => vsbeq a b
+  | _, _ => false
+def vsbeq : List V → List V → Bool
+  | [], [] => true
+  | a :: as, b :: bs => vbeq a b && vsbeq as bs
+  | _, _ => false
+end
+
+mutual
+def showV : V → String
+  | .int i => toString i
+  | .tup vs => "(t" ++ showVs vs ++ ")"
+  | .seq vs => "[s" ++ showVs vs ++ "]"
+def showVs : List V → String
+  | [] => ""
+  | v :: vs => " " ++ showV v ++ showVs vs
+end
+
+def showItem : Item → String
+  | .val v => showV v
+  | .err => "err"
+  | .viol => "viol"
+
+def ints (parts : List String) : Option (List Int) := parts.mapM String.toInt?
+
+/-- xray `div_floor` on mathematical integers -/
+def divFloor (a b : Int) : Int := Int.fdiv a b
+def modFloor (a b : Int) : Int := Int.fmod a b
+
+def onInt (f : Int → Item) : F
+  | .val (.int i) => f i
+  | .viol => .viol
+  | _ => .err
+
+mutual
+def vsum : V → Int
+  | .int i => i
+  | .tup vs => vssum vs
+  | .seq vs => vssum vs
+def vssum : List V → Int
+  | [] => 0
+  | v :: vs => vsum v + vssum vs
+end
+
+/-- unary functions: `aff:a:b` x*a+b, `divf:c:d` div_floor(c, x-d), `sum` (of a tuple / sequence of ints),
+`len` (of a sequence), `item:i` -/
+def parseF (s : String) : Option F :=
+  match s.splitOn ":" with
+  | ["aff", a, b] => do
+    let a ← a.toInt?; let b ← b.toInt?
+    pure (onInt fun x => .val (.int (x * a + b)))
+  | ["divf", c, d] => do
+    let c ← c.toInt?; let d ← d.toInt?
+    pure (onInt fun x => if x - d == 0 then .err else .val (.int (divFloor c (x - d))))
+  | ["sum"] => some fun | .val v => .val (.int (vsum v)) | x => x
+  | ["len"] => some fun | .val (.seq vs) => .val (.int vs.length) | .viol => .viol | _ => .err
+  | ["item", i] => do
+    let i ← i.toNat?
+    pure fun | .val (.tup vs) => (match vs[i]? with | some v => .val v | none => .err) | .viol => .viol | _ => .err
+  | _ => none
+
+def prOfBool (b : Bool) : PR := if b then .t else .f
+
+/-- predicates on an int-valued view of the element (its sum): `mod:m:r`, `lt:c`, `ge:c`, `true`, `false`,
+`errat:c` (an error value when the element is c, otherwise true) -/
+def parseP (s : String) : Option P :=
+  let onV (f : Int → PR) : P := fun | .val v => f (vsum v) | .err => .err | .viol => .viol
+  match s.splitOn ":" with
+  | ["mod", m, r] => do
+    let m ← m.toInt?; let r ← r.toInt?
+    pure (onV fun x => if m == 0 then .err else prOfBool (modFloor x m == r))
+  | ["lt", c] => do let c ← c.toInt?; pure (onV fun x => prOfBool (x < c))
+  | ["ge", c] => do let c ← c.toInt?; pure (onV fun x => prOfBool (x ≥ c))
+  | ["true"] => some (onV fun _ => .t)
+  | ["false"] => some (onV fun _ => .f)
+  | ["errat", c] => do let c ← c.toInt?; pure (onV fun x => if x == c then .err else .t)
+  | _ => none
+
+/-- binary functions for aggregate: `add`, `lin:a` (s*a + x) -/
+def parseF2 (s : String) : Option F2 :=
+  let on2 (f : Int → Int → Item) : F2 := fun
+    | .val (.int a), .val (.int b) => f a b
+    | .viol, _ => .viol
+    | _, .viol => .viol
+    | _, _ => .err
+  match s.splitOn ":" with
+  | ["add"] => some (on2 fun a b => .val (.int (a + b)))
+  | ["lin", a] => do let a ← a.toInt?; pure (on2 fun s x => .val (.int (s * a + x)))
+  | _ => none
+
+/-- equalities for group: `eq`, `eqmod:m` (on the int view) -/
+def parseEq (s : String) : Option P2 :=
+  let on2 (f : V → V → PR) : P2 := fun
+    | .val a, .val b => f a b
+    | .viol, _ => .viol
+    | _, .viol => .viol
+    | _, _ => .err
+  match s.splitOn ":" with
+  | ["eq"] => some (on2 fun a b => prOfBool (vbeq a b))
+  | ["eqmod", m] => do
+    let m ← m.toInt?
+    pure (on2 fun a b => if m == 0 then .err else prOfBool (modFloor (vsum a) m == modFloor (vsum b) m))
+  | _ => none
+
+def popN (n : Nat) (st : List G) : Option (List G × List G) :=
+  if st.length < n then none else some ((st.take n).reverse, st.drop n)
+
+/-- `repeat(g, n)` (`include.rs:1339`): `[g].to_generator().repeat().take(n).flatten()`, and `flatten` is
+`reduce([].to_generator(), add)`: a left fold of `add` over n copies -/
+def repeatN (g : G) : Nat → G
+  | 0 => .fromArr []
+  | n + 1 => (repeatN g n).mkChain g
+
+def applyTok (st : List G) (tok : String) : Option (List G) :=
+  match tok.splitOn ":", st with
+  | ["arr", xs], st => do
+    let vs ← if xs == "" then some [] else ints (xs.splitOn ",")
+    pure (.fromArr (vs.map V.int) :: st)
+  | ["count"], st => some (.fromCount none :: st)
+  | ["countaff", a, b], st => do
+    let f ← parseF s!"aff:{a}:{b}"
+    pure (.fromCount (some f) :: st)
+  | "succ" :: init :: f, st => do
+    let i ← init.toInt?
+    let f ← parseF (":".intercalate f)
+    pure (.succUntil (.val (.int i)) (fun x => some (f x)) :: st)
+  | "succuntil" :: init :: c :: f, st => do
+    let i ← init.toInt?
+    let c ← c.toInt?
+    let f ← parseF (":".intercalate f)
+    -- `successors_until(i, (x) -> if(x < c, some(f(x)), none()))`
+    pure (.succUntil (.val (.int i))
+      (fun x => match x with
+        | .val (.int v) => if v < c then some (f x) else none
+        | _ => some .err) :: st)
+  | "map" :: f, g :: st => do let f ← parseF (":".intercalate f); pure (.map g f :: st)
+  | "filter" :: p, g :: st => do let p ← parseP (":".intercalate p); pure (.filter g p :: st)
+  | "takewhile" :: p, g :: st => do let p ← parseP (":".intercalate p); pure (.takeWhile g p :: st)
+  | "skipuntil" :: p, g :: st => do let p ← parseP (":".intercalate p); pure (.skipUntil g p :: st)
+  | ["take", n], g :: st => do let n ← n.toNat?; pure (g.take n :: st)
+  | ["skip", n], g :: st => do let n ← n.toNat?; pure (g.skip n :: st)
+  | ["add"], b :: a :: st => some (a.mkChain b :: st)
+  | ["repeat"], g :: st => some (.repeat_ g :: st)
+  | ["repeatn", n], g :: st => do let n ← n.toNat?; pure (repeatN g n :: st)
+  | "aggregate" :: init :: f, g :: st => do
+    let i ← init.toInt?
+    let f ← parseF2 (":".intercalate f)
+    pure (.aggregate g (.val (.int i)) f :: st)
+  | ["withcount"], g :: st => some (.withCount g vbeq :: st)
+  -- `distinct` (`include.rs:198`): with_count, keep the first occurrences, project
+  | ["distinct"], g :: st =>
+    some (.map (.filter (.withCount g vbeq)
+        (fun | .val (.tup [_, .int n]) => prOfBool (n == 1) | .viol => .viol | _ => .err))
+        (fun | .val (.tup [v, _]) => .val v | .viol => .viol | _ => .err) :: st)
+  | "group" :: e, g :: st => do let e ← parseEq (":".intercalate e); pure (.group g e :: st)
+  | ["windows", n], g :: st => do let n ← n.toNat?; pure (.windows g n :: st)
+  | ["zip", n], st => do
+    let n ← n.toNat?
+    let (parts, st) ← popN n st
+    pure (.zip parts :: st)
+  -- `enumerate` (`include.rs:202`): `count(start, offset).zip(a)`
+  | ["enumerate", a, b], g :: st => do
+    let f ← parseF s!"aff:{b}:{a}"
+    pure (.zip [.fromCount (some f), g] :: st)
+  | _, _ => none
+
+def buildG (toks : List String) : Option G :=
+  match toks.foldlM applyTok [] with
+  | some [g] => some g
+  | _ => none
+
+def showRes {α : Type} (sh : α → String) : Res α → String
+  | .ok a => "ok " ++ sh a
+  | .err => "err"
+  | .viol => "viol"
+  | .outOfFuel => "fuel"
+
+def parseLimit (s : String) : Option (Option Nat) :=
+  if s == "-" then some none else s.toNat?.map some
+
+end XrayDriver.GenEng
 namespace XrayDriver
+open XrayDriver.GenEng
 
 def genEngine (f : String) (args : List String) : String :=
-  match f, args with
-  | _, _ => "bad-op"
+  match args with
+  | l :: fuel :: toks =>
+    match parseLimit l, fuel.toNat?, buildG toks with
+    | some L, some fuel, some g =>
+      match f.splitOn ":" with
+      | ["toarray"] => showRes (fun vs => "[s" ++ showVs vs ++ "]") (toArray L fuel g)
+      | ["len"] => showRes (fun (n : Nat) => toString n) (len L fuel g)
+      | ["last"] => showRes showV (last L fuel g)
+      | ["get", i] =>
+        match i.toInt? with
+        | some i => showRes showV (get L fuel g i)
+        | none => "bad-op"
+      | ["steps", n] =>
+        match n.toNat? with
+        | some n => "ok" ++ String.join ((outs L n (g.start L)).map fun x => " " ++ showItem x)
+        | none => "bad-op"
+      | _ => "bad-op"
+    | _, _, _ => "bad-op"
+  | _ => "bad-op"
 
 end XrayDriver
